@@ -20,7 +20,7 @@ var reShiftDst = regexp.MustCompile(`^(.*)\[(.*):\]$`)
 
 // C02: distilled text is an ordered excerpt of the source.
 func C02(p *core.Program, r *core.Report) {
-	r.Explanation = "Order-preservation skeleton: between `the walk visits text nodes in document order` and `the output concatenates content elements` no step can reorder or duplicate. O1: the child loops on the output paths (WalkNodes, TreeClone, InnerText, dom.Clone) start at FirstChild, advance by NextSibling and attach with AppendChild only. O2: every writer of the sequence carriers (Document.Elements, TextDocument.TextBlocks, TextBlock.TextElements, TextBuilder.textNodes, Text.TextNodes) is an append to the field itself, the constructor's initial value, or the shift-left-by-one delete idiom (copy(s[i:], s[i+1:]) + truncate) on the same slice; none is sorted and no element is overwritten. O3: TextBuilder.Build hands out the window [firstNode, len(textNodes)) and every non-nil result is followed by Reset, which moves firstNode to len(textNodes) (disjoint windows). O4: the document emitters iterate the element list forward and skip exactly the non-content elements. O5: every builder method that appends a non-text element flushes the pending text block first, so an element cannot overtake text that precedes it. O6: synthesised figure captions are the visibility-aware text of a re-parsed fragment (nothing fabricated from markup); table text and HTML are rendered from the one clone. O8: whole subtrees enter the output only through the conforming per-node gate of GetOutputNodes or as reviewed Image/Figure copies pruned to img/source (shared with C04/C05), so no source text is emitted a second time inside a copied element. O7: the visibility decision list used by the walk, the table/caption cloner and InnerText is the documented one (shared with C04-V3). O9 (words come from text nodes only, the text half of C09-W1): every text rendering of a non-Text element is \"\" or domutil.InnerText of a tree - never an attribute value. O10 (no word is made of two): the HTML view concatenates the renderings without separator, so no HTML rendering may come from an inner serializer that trims its result; inner serializers (dom.InnerHTML, domutil.InnerHTML) and their trimming are recognised by shape."
+	r.Explanation = "Order-preservation skeleton: between `the walk visits text nodes in document order` and `the output concatenates content elements` no step can reorder or duplicate. O1: the child loops on the output paths (WalkNodes, TreeClone, InnerText, dom.Clone) start at FirstChild, advance by NextSibling and attach with AppendChild only. O2: every writer of the sequence carriers (Document.Elements, TextDocument.TextBlocks, TextBlock.TextElements, TextBuilder.textNodes, Text.TextNodes) is an append to the field itself, the constructor's initial value, or the shift-left-by-one delete idiom (copy(s[i:], s[i+1:]) + truncate) on the same slice; none is sorted and no element is overwritten. O3: TextBuilder.Build hands out the window [firstNode, len(textNodes)) and every non-nil result is followed by Reset, which moves firstNode to len(textNodes) (disjoint windows). O4: the document emitters iterate the element list forward and skip exactly the non-content elements. O5: every builder method that appends a non-text element flushes the pending text block first, so an element cannot overtake text that precedes it. O6: synthesised figure captions are the visibility-aware text of a re-parsed fragment (nothing fabricated from markup); table text and HTML are rendered from the one clone. O8: whole subtrees enter the output only through the conforming per-node gate of GetOutputNodes or as reviewed Image/Figure copies pruned to img/source (shared with C04/C05), so no source text is emitted a second time inside a copied element. O7: the visibility decision list used by the walk, the table/caption cloner and InnerText is the documented one (shared with C04-V3). O9 (words come from text nodes only, the text half of C09-W1): every text rendering of a non-Text element is \"\" or domutil.InnerText of a tree - never an attribute value. O10 (no word is made of two): the HTML view concatenates the renderings without separator, so no HTML rendering may come from an inner serializer that trims its result; inner serializers (dom.InnerHTML, domutil.InnerHTML) and their trimming are recognised by shape. O11: the text collector of InnerText conforms to its decision list (shared with C04-V5). O12: nothing touches the converter's clone before the walk except the two reviewed removal passes (shared with C18-T7)."
 	r.NotCovered = "fabrication by the classifier (none: it only flags), which blocks are selected, adjacency of merged blocks, the javascript: anchor rewriting (C03), correctness of the HTML serializer."
 
 	c := core.NewCanon(p)
